@@ -83,11 +83,18 @@ pub fn run(args: &Args) -> i32 {
             };
         }
         net.run(10_000, sink!());
-        let mut b = DialOpts::peer_id(target).condition(PeerCondition::Always).addresses(addrs.clone());
-        if use_override {
-            b = b.override_dial_concurrency_factor(std::num::NonZeroU8::new(k as u8).unwrap());
-        }
-        net.swarm(0).dial(b.build()).expect("accepted");
+        // the per-dial override is given after or (as the AutoNAT server does) before the address list
+        let kk = std::num::NonZeroU8::new(k as u8).unwrap();
+        let opts = if use_override && rng.bool() {
+            DialOpts::peer_id(target).condition(PeerCondition::Always).override_dial_concurrency_factor(kk).addresses(addrs.clone()).build()
+        } else {
+            let mut b = DialOpts::peer_id(target).condition(PeerCondition::Always).addresses(addrs.clone());
+            if use_override {
+                b = b.override_dial_concurrency_factor(kk);
+            }
+            b.build()
+        };
+        net.swarm(0).dial(opts).expect("accepted");
         net.touch(0);
         let mut resolved_fail: Vec<Multiaddr> = vec![];
         let mut resolved_ok: Vec<Multiaddr> = vec![];
